@@ -506,8 +506,15 @@ func cmdCheck(prop, tier string) int {
 			continue
 		}
 		reported++
-		if reported > 3 {
-			violLines = append(violLines, fmt.Sprintf("  (further violation class not minimised) %s x%d", key, agg.violCount[key]))
+		if reported > 4 {
+			// further classes: a verified but unminimised replay file for the first dozen
+			line := fmt.Sprintf("  (further violation class not minimised) %s x%d", key, agg.violCount[key])
+			if reported <= 16 {
+				if rf, err := shrinkAndWrite(bres.Binary, verif, work, spec, r, v, 1); err == nil {
+					line += " replay=" + rf
+				}
+			}
+			violLines = append(violLines, line)
 			exit = 1
 			continue
 		}
